@@ -78,6 +78,21 @@ CHECKS = {
         note=COMMON_NOTE + "List order is not compared here (C14). Components above 8 stems are outside the statement."),
 }
 
+CHECKS["C05"] = dict(
+    category="exploration", design="DESIGN.md §4/C05",
+    technique="TLA+ state machine of presentations (Presentation.tla); TLC -simulate generates behaviours that are "
+              "replayed on corpus structures; TLC trace validation of the frame property with the 1e-6 margin rule",
+    text="Presentation.tla models rigid motions (seeded random rotations, the 23 exact axis permutations, integer "
+         "translations up to +-500 A), atom order, order-preserving chain/number renaming and the delivery format "
+         "(object / PDB / mmCIF) with the guard that text never carries a random rotation (model-checked). TLC -simulate "
+         "draws 60/900 behaviours of 4/6 steps; each is replayed cumulatively on corpus structures (thorough: also jittered "
+         "ones), the real reader + extract_secondary_structure run after every step, and Trace_Presentation requires the "
+         "canonical annotation (pairs+classes, stackings, BPh, BR, BPSEQ, dot-bracket, extended dot-bracket, elements) of "
+         "every state to equal the first state's unless the independently measured margin of some decision quantity is "
+         "below 1e-6. Sampling, not exhaustive: exploration level.",
+    note=COMMON_NOTE + "Motions, re-emission and margins are harness-side numerics (numpy); TLC decides equality and the "
+         "margin rule. BPh/BR lists are compared as sets.")
+
 PENDING = {}   # property id -> reason (kept honest while a check is being built)
 
 
